@@ -28,6 +28,8 @@ POOL = [
     'from .nosuchmodule usepulses *\nregister q[1]\n',
     'from .vpulses usepulses *\nregister q[2]\nprepare_all\nX q[0]\nmeasure_all\n',
 ]
+EDGE = {'NUM': ['1.0e400', '-2.5e999', '1.5e-400', '-.0', '+.5', '0.1E+5'],
+        'INT': ['99999999999999999999999', '-0', '+2', '0002', '-36893488147419103232']}
 PROC_CFG = 'SPECIFICATION Spec\nCONSTANTS\n MaxLen = %d\nINVARIANT HistoryIndependent\nINVARIANT Emit\n'
 
 
@@ -128,8 +130,17 @@ def texts_stage(rep, tier, wd, rng):
     dump = os.path.join(wd, 'parsedump')
     res = core.run_tlc('ParseEnum', c02.cfg_text('GrammarAlphabet', 'PastSet', 4 if tier == 'quick' else 5), wd, dump=dump)
     rep.add_model_check('ParseEnum[grammar]', res)
+    nvar = 0
     for st in tlaval.read_dump(dump + '.dump'):
         srcs.append(render.render_tokens(st['toks'])[0])
+        # (2b) the same token string with every numeric literal respelled at the edge of its token class
+        # (overflowing / underflowing floats, signed zero, leading zeros, integers beyond 64 bits)
+        if any(t['t'] in ('NUM', 'INT') for t in st['toks']):
+            for _ in range(2):
+                alt = [dict(t, v=rng.choice(EDGE[t['t']])) if t['t'] in EDGE else t for t in st['toks']]
+                srcs.append(render.render_tokens(alt)[0])
+                nvar += 1
+    rep.cov['edge_literal_variants'] = nvar
     os.remove(dump + '.dump')
     # (3) mutated example files and the history pool
     corpus = [open(f).read()[:400] for f in sorted(glob.glob('/repo/examples/jaqal/**/*.jaqal', recursive=True))] + POOL
